@@ -132,6 +132,7 @@ type chanModel struct {
 	Discarded   int64
 	Uncertain   bool // creation/deletion raced something: existence unknown
 	pendingVoid bool
+	lastDeleteStep int
 	hadConsumer bool
 	Unordered   bool // a consumer with unbounded output buffering: receipt order is not send order
 	discarded   map[string]int // pub key -> step at which the discard was acknowledged
@@ -151,6 +152,7 @@ type topicModel struct {
 	UnknownBytes int64
 	Epoch     int
 	VoidSeq   uint64
+	VoidStep  int
 	Tainted   bool
 	CreatedStep int
 	ExistUnknown bool
@@ -213,6 +215,7 @@ type qWorld struct {
 	stale    []*staleCmd
 	epoch    int // settle epoch: operations between two settles are concurrent
 	badRdy   []*consumer
+	burstOps []Op
 	lastStats *statsDoc
 }
 
@@ -654,6 +657,12 @@ func (w *qWorld) opSub(op Op) {
 	if (flags>>7)&1 == 1 && w.cfg.TLS {
 		opts["tls_v1"] = true
 	}
+	if opts["deflate"] == true && co.OBT <= 0 {
+		// nsqd only flushes the deflate stream when it flushes the connection:
+		// without a flush timer frames can be withheld indefinitely
+		co.Unbuffered = false
+		co.OBT = -1
+	}
 	if _, err := cl.Identify(opts, nil); err != nil {
 		w.rc.Logf("identify failed: %v", err)
 		co.Dead = true
@@ -854,6 +863,7 @@ func (w *qWorld) ephemeralCleanup(c *chanModel) {
 			t.ephemeralGone = true
 			t.Epoch++
 			t.VoidSeq = w.rc.Net.NextSeq()
+			t.VoidStep = w.epoch
 		}
 	}
 }
@@ -890,6 +900,7 @@ func (w *qWorld) opAdmin(op Op) func() {
 	case "empty_topic", "delete_topic":
 		if t := w.topics[topic]; t != nil {
 			t.VoidSeq = sendSeq
+			t.VoidStep = sendStep
 		}
 		if what == "delete_topic" {
 			for _, k := range w.sortedChanKeys() {
@@ -1038,6 +1049,7 @@ func (w *qWorld) voidChannel(c *chanModel, deleted bool, burst bool) {
 	}
 	if deleted {
 		c.Exists = false
+		c.lastDeleteStep = w.epoch
 		c.Uncertain = burst
 		c.Paused = false
 		defer w.ephemeralCleanup(c)
